@@ -260,6 +260,42 @@ def shared_object_value(impl, variant):
     return None
 
 
+MATCH_PAIRS = [
+    # (template, program): the program's arguments are strings, booleans, arrays, declared variables and (tdm) p-arrays - matched against
+    # template parameters or against literals; matching reads both programs and changes neither, whether it succeeds or fails
+    ("Label({tag}) | 0\nRgate({r}) | 1\n", 'Label("calibration") | 0\nRgate(0.5) | 1\n', ""),
+    ("Label({tag}, {flag}) | 0\n", 'str s = "run7"\nLabel(s, True) | 0\n', ""),
+    ("Label({tag}, on={flag}) | 0\n", 'Label("x y", on=False) | 0\n', ""),
+    ("Label({tag}) | 0\nRgate({r}) | 1\n", 'float r = 0.25\nstr r2 = "r"\nLabel("r") | 0\nRgate(r) | 1\n', ""),
+    ("Gate({U}) | 0\n", "float array U =\n    1, 2\n    3, 4\nGate(U) | 0\n", ""),
+    ("Rgate({a}) | 0\nSgate({a}, {b}) | 1\n", "float array p0 =\n    0.5, 1.5\nint array p1 =\n    1, 2\nRgate(p0) | 0\nSgate(p0, p1) | 1\n", "type tdm (temporal_modes=2)\n"),
+    ("Rgate({a}) | 0\nLabel({t}) | 1\n", 'float array p0 =\n    0.5, 1.5\nRgate(p0) | 0\nLabel("p1") | 1\n', "type tdm (temporal_modes=2)\n"),
+    ("Rgate({a}) | 0\nLabel({t}) | 1\n", 'float array p0 =\n    0.5, 1.5\nstr lab = "run7"\nRgate(p0) | 0\nLabel("run7") | 1\n', "type tdm (temporal_modes=2)\n"),
+    ('Label("fixed", {t}) | 0\n', 'Label("fixed", "free") | 0\n', ""),
+    ('Label("fixed", {t}) | 0\n', 'Label("other", "free") | 0\n', ""),
+    ("Rgate({a}) | 0\nRgate({a}) | 1\n", 'Rgate("s") | 0\nRgate("t") | 1\n', ""),
+    ("MeasureX | 0\nZgate(2*q0, {g}) | 1\n", "MeasureX | 0\nZgate(2*q0, 0.5) | 1\n", ""),
+]
+
+
+def match_pair_case(impl, k):
+    from blackbird.utils import match_template
+    tt, pt, ty = MATCH_PAIRS[k]
+    t = impl.loads("name T\nversion 1.0\n" + ty + tt)
+    p = impl.loads("name P\nversion 1.0\n" + ty + pt)
+    st, sp = snapshot(t), snapshot(p)
+    for rep in range(2):
+        try:
+            match_template(t, p)
+        except Exception:  # noqa: BLE001
+            pass
+        nt, np_ = snapshot(t), snapshot(p)
+        for who, a, b in (("template", st, nt), ("program", sp, np_)):
+            if a[0] != b[0] or a[1] != b[1]:
+                return "match_template changed the %s of the %s it was given (pair %d, call %d)" % ("serialisation" if a[0] != b[0] else "content", who, k, rep + 1)
+    return None
+
+
 def run(tier, seed):
     res = Result(PROP, tier, seed)
     rng = random.Random(seed)
@@ -298,6 +334,16 @@ def run(tier, seed):
         if msg:
             ok = False
             res.violate(msg, {"check": "shared-object-value", "variant": variant})
+    for k in range(len(MATCH_PAIRS)):
+        try:
+            msg = match_pair_case(impl, k)
+        except Exception as e:  # noqa: BLE001
+            msg = "harness error in match pair %d: %s: %s" % (k, type(e).__name__, str(e)[:100])
+        res.case("match-pair-%d" % k, True, None)
+        res.count("match-pair")
+        if msg:
+            ok = False
+            res.violate(msg, {"check": "match-pair", "k": k})
     res.oblige("correspondence: snapshots (dump text, content, operation keys) unchanged by every read-only call; instances/graphs separated from the template and from each other", "correspondence", ok)
     return finish(res, level="proof", trusted=fw.TRUSTED_COMMON + ["copy.deepcopy returns fresh isomorphic objects; the footprint extraction of T3 is syntactic (partial)"],
                   rule="templates (with/without arrays and target options) x random sequences of 2-7 calls among dumps, template call with varying values, "
@@ -309,6 +355,10 @@ def run(tier, seed):
 def replay(rep):
     import impl
     inp = rep["input"]
+    if inp.get("check") == "match-pair":
+        msg = match_pair_case(impl, inp["k"])
+        print(msg)
+        return 1 if msg else 0
     if inp.get("check") == "shared-object-value":
         msg = shared_object_value(impl, inp["variant"])
         print(msg)
